@@ -1,4 +1,5 @@
 import QuantemModel.Lemmas.OriginFit
+import QuantemModel.Lemmas.OriginState
 /-!
 C18 — centre-of-mass origin estimation (Model/Origin.lean) is exact, path independent and batch
 invariant; constant / plane fits reproduce a surface the origins lie on; an integer shift is the
@@ -346,11 +347,13 @@ theorem parabola_degenerate_raster_counterexample :
 
 /-! ### 3. integer shift = circular roll -/
 
-/-- **Integer shift**: for a detector of at least 2 × 2 pixels, an integer fitted origin
-`(oy, ox)` and an integer target coordinate `(cy, cx)`, `shift_origin_to` returns exactly
-`roll(I, −(origin − coordinate))`: entry `[i][j]` is `I[(i + oy − cy) mod h][(j + ox − cx) mod w]`
-(the periodic index lands on a pixel, the bilinear weights are (1,0,0,0)). -/
-theorem shift_int_roll (h w : Nat) (hh : 2 ≤ h) (hw : 2 ≤ w) (oy ox cy cx : ℤ) (I : Pattern ℝ) :
+/-- **Integer shift**: for EVERY detector shape (an axis of length 1 included: line detectors), an
+integer fitted origin `(oy, ox)` and an integer target coordinate `(cy, cx)`, `shift_origin_to`
+returns exactly `roll(I, −(origin − coordinate))`: entry `[i][j]` is
+`I[(i + oy − cy) mod h][(j + ox − cx) mod w]` (the periodic index lands on a pixel, the bilinear
+weights are (1,0,0,0)).  Before the repair of the grid normalisation (`/ (size - 1)`) this needed
+`2 ≤ h, w`: an axis of length 1 gave 0/0. -/
+theorem shift_int_roll (h w : Nat) (hh : 1 ≤ h) (hw : 1 ≤ w) (oy ox cy cx : ℤ) (I : Pattern ℝ) :
     shiftOriginTo ((cy : ℝ), (cx : ℝ)) h w ((oy : ℝ), (ox : ℝ)) I = rollNeg h w (oy - cy) (ox - cx) I := by
   unfold shiftOriginTo rollNeg
   apply List.map_congr_left
@@ -358,18 +361,27 @@ theorem shift_int_roll (h w : Nat) (hh : 2 ≤ h) (hw : 2 ≤ w) (oy ox cy cx : 
   apply List.map_congr_left
   intro j _
   simp only
-  rw [unnormalise _ h hh, unnormalise _ w hw]
   have e1 : (Num.ofNat i + ((oy : ℝ) - (cy : ℝ)) : ℝ) = (((i : ℤ) + (oy - cy) : ℤ) : ℝ) := by
     simp only [NumReal.ofNat_eq]; push_cast; ring
   have e2 : (Num.ofNat j + ((ox : ℝ) - (cx : ℝ)) : ℝ) = (((j : ℤ) + (ox - cx) : ℤ) : ℝ) := by
     simp only [NumReal.ofNat_eq]; push_cast; ring
   simp only [NumReal.add_eq, NumReal.sub_eq] at e1 e2 ⊢
-  rw [e1, e2, fmod_int, fmod_int, sampleBilinear_int]
+  rw [e1, e2, fmod_int, fmod_int]
+  have g1 : h = 1 → ((((i : ℤ) + (oy - cy)) % (h : ℤ) : ℤ) : ℝ) = 0 := by
+    intro h1; subst h1; simp
+  have g2 : w = 1 → ((((j : ℤ) + (ox - cx)) % (w : ℤ) : ℤ) : ℝ) = 0 := by
+    intro h1; subst h1; simp
+  have u1 := unnormalise _ h hh g1
+  have u2 := unnormalise _ w hw g2
+  rw [u1, u2, sampleBilinear_int]
   have hhpos : (0 : ℤ) < (h : ℤ) := by omega
   have hwpos : (0 : ℤ) < (w : ℤ) := by omega
   rw [pix_inbounds I h w _ _ (Int.emod_nonneg _ hhpos.ne') (Int.emod_lt_of_pos _ hhpos)
     (Int.emod_nonneg _ hwpos.ne') (Int.emod_lt_of_pos _ hwpos)]
   rfl
+
+/-- non-vacuity on a line detector: a 1 × 3 pattern whose origin (5, 1) is moved to the corner -/
+example : shiftOriginTo ((0 : Rat), (0 : Rat)) 1 3 ((5 : Rat), (1 : Rat)) [[7, 8, 9]] = [[8, 9, 7]] := by decide +kernel
 
 /-- the batched loop of `shift_origin_to` shifts every pattern by its own origin whatever the
 batch size (any carrier) -/
@@ -570,5 +582,227 @@ theorem weak_layout_test_counterexample :
 example : storeOrigins 6 (.grid [[((0 : Nat), 1), (2, 3), (4, 5)], [(6, 7), (8, 9), (10, 11)]])
     = storeOrigins 6 (.flat [((0 : Nat), 1), (2, 3), (4, 5), (6, 7), (8, 9), (10, 11)]) := by decide
 example : storeOrigins 3 (.flat [((0 : Nat), 1), (2, 3)]) = none := by decide
+
+/-! ### 6. the two objects over whole histories — rejected calls, re-runs, in-place edits
+
+`Model/OriginState.lean` models `CenterOfMassOriginModel` and the centre-of-mass state of
+`PtychographyDatasetRaster` as state machines whose steps either return or raise. -/
+
+/-- **Exception safety** (any carrier): a primitive call on the origin model that raises — a setter
+given the wrong number of rows / an odd number of entries / complex data, an unknown fit method,
+probe positions of the wrong length, fitting before measuring, shifting before fitting, batch
+size 0 — leaves the object EXACTLY as it was. -/
+theorem om_rejected_call_leaves_object_unchanged {R : Type} [Num R] [HasFloor R] (s : OmState R) (op : OmOp R)
+    (hp : op.primitive) (e : Rejected) (h : (omStep s op).2 = some e) : (omStep s op).1 = s :=
+  omStep_rejected s op hp e h
+
+/-- **Histories** (any carrier): running any history of primitive calls gives the same object as
+running only those of its calls that returned — what a refused call was given is never used by a
+later call. -/
+theorem om_history_ignores_rejected_calls {R : Type} [Num R] [HasFloor R] (s : OmState R) (ops : List (OmOp R))
+    (hp : ∀ op ∈ ops, op.primitive) : omRun s ops = omRun s (omAccepted s ops) :=
+  (omRun_accepted ops s hp).symm
+
+/-- non-vacuity: of four calls (a 3-row assignment on 2 patterns, a valid one, a shift with batch size 0, a
+valid shift) exactly the two valid ones are accepted, and the stored roll is that of the valid origins -/
+example :
+    let s0 : OmState Rat := OmState.init (some (1, 2)) 1 2 [[[1, 2]], [[3, 4]]]
+    let ops : List (OmOp Rat) := [.setFitted ⟨true, [0, 0, 1, 1, 2, 2]⟩, .setFitted ⟨true, [0, 0, 0, 1]⟩, .shift (0, 0) 0, .shift (0, 0) 1]
+    (omAccepted s0 ops).length = 2 ∧ (omRun s0 ops).fitted = some [(0, 0), (0, 1)] ∧
+      (omRun s0 ops).shifted = some [[[1, 2]], [[4, 3]]] := by
+  decide +kernel
+
+/-- `forward()` is a sequence of three calls and is NOT atomic (kept visible): on a 3-D dataset it
+measures, then the fit raises because no probe positions can be inferred — the measured origins
+stay stored.  Replayed on the real code by the harness (`forward_partial_case`). -/
+theorem forward_not_atomic_counterexample :
+    let s0 : OmState Rat := OmState.init none 2 2 [[[1, 2], [3, 4]], [[4, 3], [2, 2]]]
+    (omStep s0 (.forward 2 .constant ((0, 0, 1), (0, 0, 1)) (0, 0))).2 = some .valueError ∧
+    (omStep s0 (.forward 2 .constant ((0, 0, 1), (0, 0, 1)) (0, 0))).1.measured = some [(7 / 10, 3 / 5), (4 / 11, 5 / 11)] ∧
+    s0.measured = none := by
+  decide +kernel
+
+/-- a setter that stores the reshaped value FIRST and checks the row count afterwards breaks the
+two theorems above (kept as a warning): the refused 3-row assignment stays in the object and the
+next constant fit returns ITS mean `(0, 0)` instead of the mean `(2, 2)` of the measured origins. -/
+theorem store_before_validate_counterexample :
+    let s0 : OmState Rat := { OmState.init (some (1, 2)) 1 1 [[[1]], [[1]]] with measured := some [(1, 1), (3, 3)] }
+    let bad : RawArray Rat := ⟨true, [0, 0, 0, 0, 0, 0]⟩
+    (omSetMeasured s0 bad).2 = some .runtimeError ∧ (omSetMeasured s0 bad).1.measured = some [(1, 1), (3, 3)] ∧
+    (omFit (omSetMeasured s0 bad).1 .inferred .constant ((0, 0, 1), (0, 0, 1))).1.fitted = some [(2, 2), (2, 2)] ∧
+    (omSetMeasuredStoreFirst s0 bad).2 = some .runtimeError ∧
+    (omSetMeasuredStoreFirst s0 bad).1.measured = some [(0, 0), (0, 0), (0, 0)] ∧
+    (omFit (omSetMeasuredStoreFirst s0 bad).1 .inferred .constant ((0, 0, 1), (0, 0, 1))).1.fitted = some [(0, 0), (0, 0)] := by
+  decide +kernel
+
+/-- **`num_dps` follows the tensor** over EVERY history (tensor replacements, `forward`, rejected
+calls included) — as repaired; before, a replaced tensor with another scan shape left `num_dps`
+stale and `calculate_origin` skipped patterns or raised. -/
+theorem om_num_dps_follows_tensor {R : Type} [Num R] [HasFloor R] (scan : Option (Nat × Nat)) (h w : Nat)
+    (t3 : List (Pattern R)) (ops : List (OmOp R)) :
+    (omRun (OmState.init scan h w t3) ops).numDps = (omRun (OmState.init scan h w t3) ops).tensor.length :=
+  omRun_numDps ops _ rfl
+
+/-- **Row invariant**: over every history that keeps the tensor, whatever is stored in
+`origin_measured`, `origin_fitted`, `shifted_tensor` has exactly one row per pattern. -/
+theorem om_rows_invariant {R : Type} [Num R] [HasFloor R] (scan : Option (Nat × Nat)) (h w : Nat)
+    (t3 : List (Pattern R)) (ops : List (OmOp R)) (hk : ∀ op ∈ ops, op.keepsTensor) :
+    OmRows (omRun (OmState.init scan h w t3) ops) :=
+  omRun_rows ops _ hk ⟨rfl, fun _ h => by simp [OmState.init] at h, fun _ h => by simp [OmState.init] at h,
+    fun _ h => by simp [OmState.init] at h⟩
+
+/-- **`calculate_origin` after ANY history** (ℝ): whatever calls came before — accepted or rejected,
+setters, fits, shifts, earlier measurements with other batch sizes — `calculate_origin` returns and
+stores, for every batch size `b ≥ 1`, the intensity-weighted mean (row, column) of every pattern. -/
+theorem om_measure_after_any_history (scan : Option (Nat × Nat)) (h w : Nat) (t3 : List (Pattern ℝ))
+    (ops : List (OmOp ℝ)) (hk : ∀ op ∈ ops, op.keepsTensor) (hrect : ∀ I ∈ t3, Rect h w I) (b : Nat) (hb : 0 < b) :
+    (omStep (omRun (OmState.init scan h w t3) ops) (.measure b)).2 = none ∧
+    (omStep (omRun (OmState.init scan h w t3) ops) (.measure b)).1.measured = some (t3.map comSpec) := by
+  have hf := omRun_frame ops (OmState.init scan h w t3) hk
+  have hn := omRun_numDps ops (OmState.init scan h w t3) rfl
+  simp only [omStep]
+  rw [omCalc_eq _ hn b hb]
+  refine ⟨rfl, ?_⟩
+  simp only
+  rw [hf.1, hf.2.1, hf.2.2.1]
+  simp only [OmState.init]
+  congr 1
+  apply List.map_congr_left
+  intro I hI
+  exact comOne_eq_spec h w I (hrect I hI)
+
+/-- **`shift_origin_to` after ANY history** (ℝ): if the last accepted write of `origin_fitted` stored
+integer origins `os`, then — whatever calls (accepted or rejected) came before, for every batch
+size, every integer target and EVERY detector shape — the call returns and stores the circular
+roll of each pattern by its own origin. -/
+theorem om_shift_after_any_history (scan : Option (Nat × Nat)) (h w : Nat) (hh : 1 ≤ h) (hw : 1 ≤ w)
+    (t3 : List (Pattern ℝ)) (ops : List (OmOp ℝ)) (hk : ∀ op ∈ ops, op.keepsTensor) (os : List (ℤ × ℤ))
+    (hfit : (omRun (OmState.init scan h w t3) ops).fitted = some (os.map (fun o => ((o.1 : ℝ), (o.2 : ℝ)))))
+    (cy cx : ℤ) (b : Nat) (hb : 0 < b) :
+    (omStep (omRun (OmState.init scan h w t3) ops) (.shift ((cy : ℝ), (cx : ℝ)) b)).2 = none ∧
+    (omStep (omRun (OmState.init scan h w t3) ops) (.shift ((cy : ℝ), (cx : ℝ)) b)).1.shifted =
+      some ((List.range t3.length).map (fun i =>
+        rollNeg h w ((os.getD i (0, 0)).1 - cy) ((os.getD i (0, 0)).2 - cx) (t3.getD i []))) := by
+  have hf := omRun_frame ops (OmState.init scan h w t3) hk
+  have hE : shiftE (omRun (OmState.init scan h w t3) ops) ((cy : ℝ), (cx : ℝ)) b =
+      .ok ((List.range t3.length).map (fun i =>
+        rollNeg h w ((os.getD i (0, 0)).1 - cy) ((os.getD i (0, 0)).2 - cx) (t3.getD i []))) := by
+    unfold shiftE
+    rw [hfit]
+    simp only
+    rw [if_neg (Nat.pos_iff_ne_zero.mp hb), shift_batch_invariant b hb, hf.1, hf.2.1, hf.2.2.1]
+    simp only [OmState.init]
+    rw [allSome_map_some]
+    simp only [Except.ok.injEq]
+    apply List.map_congr_left
+    intro i _
+    have hz : ((Num.zero : ℝ), (Num.zero : ℝ)) = (fun o : ℤ × ℤ => ((o.1 : ℝ), (o.2 : ℝ))) (0, 0) := by simp
+    rw [hz, List.getD_map]
+    exact shift_int_roll h w hh hw _ _ cy cx _
+  simp only [omStep, omShift]
+  rw [commit_ok _ _ _ _ hE]
+  exact ⟨rfl, rfl⟩
+
+/-- **constant fit after ANY history** (ℝ): on any object whose stored measured origins (one per
+pattern) all equal `c`, the constant fit returns and stores `c` for every pattern. -/
+theorem om_constant_fit_in_any_state (s : OmState ℝ) (o : List (ℝ × ℝ)) (c : ℝ × ℝ) (hm : s.measured = some o)
+    (hne : o ≠ []) (hall : ∀ p ∈ o, p = c) (nx ny : Nat) (hscan : s.scan = some (nx, ny))
+    (nrm : (ℝ × ℝ × ℝ) × (ℝ × ℝ × ℝ)) :
+    omStep s (.fit .inferred .constant nrm) = ({ s with fitted := some (List.replicate s.numDps c) }, none) := by
+  have hmean : meanPair o = c := by
+    have := fitConstantTorch_exact o c hne hall
+    unfold fitConstantTorch at this
+    have hpos : 0 < o.length := List.length_pos_iff.mpr hne
+    have h0 := congrArg (fun l => l[0]?) this
+    simp only [List.getElem?_replicate, hpos, if_true, Option.some.injEq] at h0
+    exact h0
+  have hE : fitE s .inferred .constant nrm = .ok (List.replicate s.numDps c) := by
+    unfold fitE
+    rw [hm]
+    simp only [fitPositions, hscan]
+    rw [hmean]
+    exact storePairs_single _ _
+  simp only [omStep, omFit]
+  rw [commit_ok _ _ _ _ hE]
+
+/-- **Exception safety, dataset model** (any carrier): a call that raises — a mask of the wrong
+shape, an unknown fit function, a `com_measured` / `com_fit` of the wrong shape — leaves
+`intensities_4d`, `com_measured`, `com_fit` exactly as they were. -/
+theorem ds_rejected_call_leaves_object_unchanged {R : Type} [Num R] (s : DsState R) (op : DsOp R) (e : Rejected)
+    (h : (dsStep s op).2 = some e) : (dsStep s op).1 = s := by
+  cases op with
+  | setCom src mask fit vec =>
+    cases src with
+    | held => exact commit_rejected _ _ _ e h
+    | external hh ww I4 => exact commit_rejected _ _ _ e h
+  | preprocess fit vec => exact commit_rejected _ _ _ e h
+  | edit a b pat => simp [dsStep] at h
+  | assign I4 => simp [dsStep] at h
+  | setComMeasured v => exact commit_rejected _ _ _ e h
+  | setComFit v => exact commit_rejected _ _ _ e h
+
+/-- **No stale state** (any carrier): the centre-of-mass stage of `preprocess()` depends on the
+patterns the object holds NOW (and its shapes) and on nothing else it stores: two objects with the
+same patterns — one fresh, one after any history of measurements, hand-set `com_measured` /
+`com_fit`, in-place edits — get the same outcome and, when the call returns, the same `com_measured`
+and `com_fit`. -/
+theorem ds_preprocess_reads_current_patterns_only {R : Type} [Num R] (s s' : DsState R) (hh : s.held = s'.held)
+    (hg : s.gpts = s'.gpts) (hr : s.roi = s'.roi) (fit : DsFit) (vec : Bool) :
+    (dsStep s (.preprocess fit vec)).2 = (dsStep s' (.preprocess fit vec)).2 ∧
+    ((dsStep s (.preprocess fit vec)).2 = none →
+      (dsStep s (.preprocess fit vec)).1.comMeasured = (dsStep s' (.preprocess fit vec)).1.comMeasured ∧
+      (dsStep s (.preprocess fit vec)).1.comFit = (dsStep s' (.preprocess fit vec)).1.comFit) := by
+  simp only [dsStep, dsSetCom]
+  rw [hh, hg, hr]
+  cases hE : dsComE s'.gpts s'.roi s'.roi.1 s'.roi.2 s'.held none fit vec with
+  | ok r => exact ⟨rfl, fun _ => ⟨rfl, rfl⟩⟩
+  | error e' => exact ⟨rfl, fun hnone => by simp [commit] at hnone⟩
+
+/-- **`preprocess()` after ANY history** (ℝ): whatever happened to the object before (measurements on
+either path, rejected calls, hand-set centres of mass, in-place edits of the patterns), the
+centre-of-mass stage returns and stores the intensity-weighted mean (row, column) of every pattern
+it holds at that moment, on the vectorised and on the looped path. -/
+theorem ds_com_after_any_history (s0 : DsState ℝ) (ops : List (DsOp ℝ)) (fit : DsFit) (vec : Bool) (hfit : fit ≠ .other)
+    (hshape : validCom (dsRun s0 ops).gpts
+      (comGrids none (dsRun s0 ops).roi.1 (dsRun s0 ops).roi.2 (dsRun s0 ops).held vec) = true)
+    (hrect : ∀ row ∈ (dsRun s0 ops).held, ∀ I ∈ row, Rect (dsRun s0 ops).roi.1 (dsRun s0 ops).roi.2 I) :
+    (dsStep (dsRun s0 ops) (.preprocess fit vec)).2 = none ∧
+    (dsStep (dsRun s0 ops) (.preprocess fit vec)).1.comMeasured =
+      some ((dsRun s0 ops).held.map (fun row => row.map (fun I => (comSpec I).1)),
+            (dsRun s0 ops).held.map (fun row => row.map (fun I => (comSpec I).2))) := by
+  generalize dsRun s0 ops = s at hshape hrect ⊢
+  have hcm : comGrids none s.roi.1 s.roi.2 s.held vec =
+      (s.held.map (fun row => row.map (fun I => (comSpec I).1)), s.held.map (fun row => row.map (fun I => (comSpec I).2))) := by
+    have hw := com_is_weighted_mean none 1 Nat.one_pos s.roi.1 s.roi.2 s.held
+      (fun row hrow I hI => ⟨hrect row hrow I hI, hrect row hrow I hI⟩)
+    unfold comGrids
+    cases vec with
+    | true => simp only [if_true]; rw [hw.2.1, hw.1]; rfl
+    | false => simp only [Bool.false_eq_true, if_false]; rw [hw.1]; rfl
+  obtain ⟨cf, hcf⟩ : ∃ cf, dsFitE s.roi fit (comGrids none s.roi.1 s.roi.2 s.held vec) = .ok cf := by
+    cases fit with
+    | none => exact ⟨_, rfl⟩
+    | noShift => exact ⟨_, rfl⟩
+    | constant => exact ⟨_, rfl⟩
+    | other => exact absurd rfl hfit
+  have hE : dsComE s.gpts s.roi s.roi.1 s.roi.2 s.held none fit vec =
+      .ok (comGrids none s.roi.1 s.roi.2 s.held vec, cf) := by
+    unfold dsComE
+    simp only [maskOk, Bool.not_true, Bool.false_eq_true, if_false, hcf, hshape, if_true]
+  simp only [dsStep, dsSetCom]
+  rw [commit_ok _ _ _ _ hE]
+  exact ⟨rfl, by simp only; rw [hcm]⟩
+
+/-- non-vacuity / the history of the seeded kind at the exact carrier: measure, overwrite
+`com_measured` by hand, edit one pattern in place, run the centre-of-mass stage again — the result is
+the centre of mass of the EDITED patterns on both paths, and the rejected calls in between change nothing -/
+example :
+    let s0 : DsState Rat := { gpts := (1, 2), roi := (2, 2), held := [[[[1, 1], [1, 1]], [[1, 3], [1, 3]]]],
+                              comMeasured := none, comFit := none }
+    (dsRun s0 [.preprocess .constant true, .setComMeasured ([[9, 9]], [[9, 9]]), .setComMeasured ([[9]], [[9]]),
+               .edit 0 0 [[1, 0], [0, 0]], .setCom .held (some [[1, 1, 1]]) .none true, .preprocess .none false]).comMeasured
+      = some ([[0, 1 / 2]], [[0, 3 / 4]]) := by
+  decide +kernel
+
 
 end QuantemModel.Props.C18
